@@ -431,6 +431,20 @@ AlignOK(V, s, b) ==
 C12_Alignment(V) ==
   \A q \in DOMAIN V.R.secs : \A j \in DOMAIN V.R.secs[q].blocks :
      AlignOK(V, V.R.secs[q].name, V.R.secs[q].blocks[j])
+\* (OPEN finding KF-C12-5, mirrored by the model: an alignment request written
+\*  between an ASCII literal and the stand-alone NUL that terminates it ends up
+\*  on the block behind the NUL)
+AlignMovedPastNul(V) ==
+  LET hd == StrHeads(V)
+      merged(s) == {i \in Idx(V) : V.pos[i].sec = s /\ hd[i] # 0 /\ hd[i] # i}
+  IN  \A q \in DOMAIN V.R.secs : \A j \in DOMAIN V.R.secs[q].blocks :
+        LET s == V.R.secs[q].name
+            b == V.R.secs[q].blocks[j]
+        IN  \/ AlignOK(V, s, b)
+            \/ /\ AlignIdx(V, s, b.o) = {}
+               /\ \E i \in merged(s) :
+                     /\ V.pos[i].o + 1 = b.o /\ AlignIdx(V, s, V.pos[i].o) # {}
+                     /\ b.al = Max({V.toks[r].a : r \in AlignIdx(V, s, V.pos[i].o)})
 \* C12_Operands.  fo/fs: where the independent disassembler places the
 \* displacement / immediate fields of the instruction (x86); <<>> = unknown
 ExpAttrs(V, t, tgt) ==
@@ -523,8 +537,6 @@ CfiInOneSection(V) ==
          ELSE V.pos[Max(st0)].sec = V.pos[i].sec
 InDomain(V) == CfiInOneSection(V)
 Completes(V) == V.exc = "" \/ V.exc \in AllowedRefusals(V)
-\* OPEN finding KF-C12-4 (the model mirrors it): AssertionError for such a transfer on ARM64 / MIPS32
-OpenDefect(V) == V.exc = "AssertionError" /\ V.P.isa \in {"arm64", "mips32"} /\ FoldedTarget(V)
 \* C12_TargetsNoOffset: a call or branch whose target carries an addend is
 \* refused (the CFG cannot express it), never assembled to an edge
 HasTargetOffset(V) == \E i \in Idx(V) : V.toks[i].k \in DirectKinds /\ V.toks[i].a # 0
@@ -668,13 +680,12 @@ DoLabel(s, t) ==
 FixedWidth == {"arm64", "mips32"}
 DoInsn(s, P, t) ==
   \* a transfer to a name whose constant value is already known: LLVM emits the
-  \* constant; x86 keeps a fixup with a constant expression (refused), the
-  \* fixed-width ISAs have no fixup at all and `assert len(fixups) == 1` fails
-  \* (open finding KF-C12-4, mirrored)
+  \* constant; x86 keeps a fixup with a constant expression, the fixed-width
+  \* ISAs have no fixup at all: both are refused ("targets must be symbolic")
   IF t.k \in DirectKinds /\ t.l \in s.asg
-  THEN Fail(s, IF P.isa \in FixedWidth THEN "AssertionError"
-               \* (LLVM's Intel-syntax parser rejects the constant target itself)
-               ELSE IF P.syn = "intel" THEN "AsmSyntaxError" ELSE "UnsupportedAssemblyError")
+  THEN Fail(s, \* (LLVM's x86 Intel-syntax parser rejects the constant target itself)
+               IF P.isa \notin FixedWidth /\ P.syn = "intel" THEN "AsmSyntaxError"
+               ELSE "UnsupportedAssemblyError")
   ELSE
   LET hasref == t.k \in DirectKinds \cup RefOpKinds
       r == IF hasref THEN Resolve(s, P, t.l) ELSE [st |-> s, err |-> "", ref |-> 0, nm |-> ""]
@@ -1035,7 +1046,7 @@ LevelA(V, dec) ==
   /\ C12_Decode(V, dec) /\ C12_Tiling(V) /\ C12_TerminatorsEndBlocks(V) /\ C12_EdgeShape(V)
   /\ C12_Fallthrough(V) /\ C12_Labels(V) /\ (HasCfi(V) \/ C12_DataConversion(V))
   /\ C12_Operands(V, dec) /\ C13_Binding(V) /\ C13_TempSuffix(V) /\ C13_Assignments(V) /\ C12_Strings(V)
-  /\ C12_Alignment(V)
+  /\ (C12_Alignment(V) \/ AlignMovedPastNul(V))
 \* the model agrees with the function RunAll (the actions and the fold are the same machine)
 FoldAgrees == ph = "done" => fin = RunAll(par, prog)
 InvDone ==
@@ -1043,7 +1054,7 @@ InvDone ==
     LET toks == Flat(prog)
         V == ModelView(toks, par, fin)
         dec == NominalDec(toks)
-    IN  /\ (InDomain(V) /\ ~OpenDefect(V) => Completes(V))
+    IN  /\ (InDomain(V) => Completes(V))
         /\ (InDomain(V) => C13_MultipleDefinitions(V) /\ C13_Undef(V) /\ C12_TargetsNoOffset(V))
         /\ (V.exc = "" => LevelA(V, dec))
         /\ (Len(prog) > 1 /\ ChunkingDomain(V) /\ InDomain(V) =>
